@@ -91,7 +91,9 @@ class TimeShim:
         return self._sim.now
 
     def monotonic(self):
-        return self._sim.now - S.EPOCH
+        # a real monotonic clock never returns the same value twice; strax divides by differences
+        self._ticks = getattr(self, "_ticks", 0) + 1
+        return self._sim.now - S.EPOCH + self._ticks * 1e-6
 
     perf_counter = monotonic
 
@@ -331,6 +333,10 @@ def _fs():
     return fs
 
 
+def _no_print(*a, **kw):
+    pass
+
+
 def sim_open(file, mode="r", *a, **kw):
     if FSM.is_sim(file):
         return _fs().open(file, mode, *a, **kw)
@@ -497,6 +503,9 @@ def install(sim, fs=None):
         had = "open" in d
         saved.append((m, "open", d.get("open"), had))
         d["open"] = sim_open
+        had = "print" in d
+        saved.append((m, "print", d.get("print"), had))
+        d["print"] = _no_print
     CTX.saved = saved
     CTX.seams = sorted(seams)
     _threading.Thread.start = _canary_thread_start
